@@ -241,13 +241,15 @@ void do_op2(const Pool &P, Priv &V, const BOp &op, Hash &h) {
         hs(h, ST::format(ST::substitute_invalid, "{}", s)); hs(h, ST::format_latin_1("{}|{}", c8, op.c));
         break; }
     case 78: {      // iostream_narrow: the thread's own std streams
-        std::ostringstream os;
+        std::ostringstream local; const bool own = (op.c >> 4) % 3 == 0;      // a third of the time: the thread's long-lived stream (state copied from the prototype)
+        std::ostringstream &os = own ? V.os8 : local; if (own) { os.str(std::string()); os.clear(); }
         if (op.c % 3 == 0) os.imbue(std::locale(std::locale::classic(), new std::numpunct<char>()));      // the thread's own stream carries its own (non-classic) locale object
         ST::writef(os, "{}|{>10}|{x}|{}|{+}|{_*8}", s, t, op.c, 3.25, (int)op.b, op.a); os << s << ' ' << t; hstd(h, os.str());
         std::istringstream is(std::string(t.c_str(), t.size()) + " tail"); if (op.c % 5 == 0) is.imbue(std::locale(std::locale::classic(), new std::numpunct<char>())); ST::string tok; int cnt = 0; while (is >> tok) { hs(h, tok); if (++cnt > 40) break; }
         break; }
     case 79: {      // iostream_wide
-        std::wostringstream os;
+        std::wostringstream local; const bool own = (op.c >> 4) % 3 == 0;
+        std::wostringstream &os = own ? V.osw : local; if (own) { os.str(std::wstring()); os.clear(); }
         if (op.c % 3 == 0) os.imbue(std::locale(std::locale::classic(), new std::numpunct<wchar_t>()));
         ST::writef(os, "{}|{<10}|{}|{+}|{>7_.}", s, op.c, L"wide é", -(int)op.b, op.a); os << s; hstd(h, os.str());
         std::wistringstream is(std::wstring(cw.data(), cw.size()) + L" tail"); ST::string tok; int cnt = 0; while (is >> tok) { hs(h, tok); if (++cnt > 40) break; }
